@@ -108,7 +108,7 @@ class Compiler:
                                 insn_state, insn_addr = state, addr
                                 def fn():
                                     old_addr_value = wait(insn_addr)
-                                    new_addr_value = get_as_int(insn_state, "link address", insn, insn.value, bitness=16, unsigned=False)
+                                    new_addr_value = get_as_int(insn_state, "link address", insn, insn.value, bitness=16, unsigned=True)
                                     length = new_addr_value - old_addr_value
                                     if length < 0:
                                         reports.error(
